@@ -202,6 +202,27 @@ CHECKS["C13"] = dict(
     ],
 )
 
+CHECKS["C14"] = dict(
+    level_text="The real copy.Copy is executed on the model file system with symlinks (relative, absolute, '..'-laden, dangling, self-looping, pointing at an outside sentinel file or directory) placed in the source tree, the destination tree and the path arguments; for every placement inside the bounds the model's operation log shows every mutating operation resolves inside the destination root and every content read inside the source root, and the outside sentinel tree is bit-identical afterwards.",
+    level_note="Bounds: source {f, d/, d/g, sl -> 8 candidate targets, d/sl?}, destination collision points f, d, d/g, x in {absent, symlink -> 5 candidate targets, file/dir}, src path in {., f, d, sl, sl/g}, dst path in {., x, d, x/y}, flags dir-contents / follow-links / always-replace; explored as two sub-spaces (source-side variety with clean destination; destination-side variety with fixed source) plus a reduced joint space in the thorough tier. Check-then-use races are outside (single actor). " + FS_TRUST + BASE_TRUST,
+    assumptions=["link targets are drawn from fixed candidate lists (file names are concrete)", "single actor: nothing changes the trees between a check and its use"],
+    obligations=[
+        ob("VH_C14_contain", dict(MODE=0), pkg=COPY, covers=["error", "success"], bounds="source-side symlink variety x path arguments x flags, clean destination"),
+        ob("VH_C14_contain", dict(MODE=1), pkg=COPY, covers=["error", "success"], bounds="destination-side symlink variety x flags, fixed source link"),
+        ob("VH_C14_contain", dict(MODE=2), T, pkg=COPY, covers=["error", "success"], bounds="both sides over reduced candidate lists", max_paths=600000),
+    ],
+)
+
+CHECKS["C15"] = dict(
+    level_text="The real copy.Copy is executed on the model file system over a shared name universe in which every (source type, destination type) pair collides; the result is compared with an executable overlay model written from the statement (directories merge, non-directory replaces non-directory of any type, unrelated entries stay, a directory lands inside an existing directory or a path ending in a separator unless directory-contents mode is on, directory vs non-directory is an error leaving the obstacle unless always-replace), and a successful copy is repeated to show the tree does not change.",
+    level_note="Bounds: source t/{x in file|dir(+children c, k)|symlink [, y]}, destination t/ optional with {x [, y] in absent|file|dir(+children)|symlink|fifo, unrelated z}, dst argument in {t, t/, n/m}, flags dir-contents and always-replace, symbolic file bytes. The attributes of a target directory prepared in directory-contents mode are not asserted; the repeat is asserted where it resolves to the same target. Wildcard sources are outside. " + FS_TRUST + BASE_TRUST,
+    assumptions=["names are concrete, file bytes symbolic", "wildcards (union of matches) are not covered"],
+    obligations=[
+        ob("VH_C15_overlay", dict(Y=0), pkg=COPY, covers=["conflict", "overlay", "idempotent"], bounds="one colliding name x, all type pairs"),
+        ob("VH_C15_overlay", dict(Y=1), T, pkg=COPY, covers=["conflict", "overlay", "idempotent"], bounds="two colliding names x, y", max_paths=600000),
+    ],
+)
+
 NOT_APPLICABLE = {
     "C08": "quantifies over schedules and includes data-race freedom and non-overlap of stream calls; the hand-written SSA executor runs goroutines under one cooperative schedule and cannot enumerate interleavings or observe races, and no Go engine that can is installed (DESIGN.md §7)",
 }
